@@ -121,14 +121,20 @@ Definition from_pq (w : widths) (p q : Z) : skey :=
 
 (** The panics of key construction: [DynResidueParams::new] on N^2, p^2, q^2 (in this order; the
     [NonZero::new(n).unwrap()] and the [wrapping_div] by p, q cannot fire afterwards). *)
+Definition from_n_panics (w : widths) (n : Z) : option N :=
+  if Z.even (wrap (wC w) (n * n)) then Some 1%N else None.
+
+Definition from_pq_panics (w : widths) (p q : Z) : option N :=
+  if Z.even (wrap (wC w) (wrap (wM w) (q * p) * wrap (wM w) (q * p))) then Some 1%N
+  else if Z.even (wrap (wM w) (p * p)) then Some 2%N
+  else if Z.even (wrap (wM w) (q * q)) then Some 3%N
+  else None.
+
 Definition from_n_outcome (w : widths) (n : Z) : outcome pkey :=
-  if Z.even (wrap (wC w) (n * n)) then Panic 1%N else Val (from_n w n).
+  match from_n_panics w n with Some s => Panic s | None => Val (from_n w n) end.
 
 Definition from_pq_outcome (w : widths) (p q : Z) : outcome skey :=
-  if Z.even (wrap (wC w) (wrap (wM w) (q * p) * wrap (wM w) (q * p))) then Panic 1%N
-  else if Z.even (wrap (wM w) (p * p)) then Panic 2%N
-  else if Z.even (wrap (wM w) (q * q)) then Panic 3%N
-  else Val (from_pq w p q).
+  match from_pq_panics w p q with Some s => Panic s | None => Val (from_pq w p q) end.
 
 (** ** Public-key operations *)
 Definition encrypt (w : widths) (pk : pkey) (m r : Z) : Z :=
@@ -229,6 +235,15 @@ Definition key_ok (w : widths) (p q : Z) : Prop :=
   Z.gcd (p * q) ((p - 1) * (q - 1)) = 1 /\
   p < 2 ^ wP w /\ q < 2 ^ wP w /\ p * q < 2 ^ wM w.
 
-(** outcome class used by the correspondence: 0 = value, 1/2 = error codes + 1, 10 + site = panic *)
+(** outcome class used by the correspondence: 0 = value, 1/2 = error code, 10 + site = panic *)
 Definition outcome_class {A} (o : outcome A) : N :=
   match o with Val _ => 0%N | Err e => e | Panic s => (10 + s)%N end.
+
+(** the class of [deser_pk] / [deser_sk] without building the key (same case analysis; equality with
+    [outcome_class (deser_* ...)] is proved in Proofs/PaillierWidth.v) *)
+Definition deser_pk_class (w : widths) (n : Z) : N :=
+  if n =? 0 then 1%N
+  else if Z.odd n then match from_n_panics w n with Some s => (10 + s)%N | None => 0%N end else 2%N.
+
+Definition deser_sk_class (w : widths) (p q : Z) : N :=
+  if Z.odd p && Z.odd q then match from_pq_panics w p q with Some s => (10 + s)%N | None => 0%N end else 2%N.
